@@ -238,6 +238,14 @@ func NameFamilies(thorough bool) []Family {
 			lens = append(lens, Rep(lab, n)+"com", Rep(lab, n)+"1", "_srv."+Rep(lab, n)+"com")
 		}
 	}
+	// very long texts of one byte value (error texts get shortened, buffers sized by powers of two): continuation
+	// bytes, lead bytes without continuation, invalid bytes, letters, dots
+	for _, unit := range []string{"\x80", "\xbf", "\xff", "\xc3", "\xe2\x82", "a", ".", "-", "\u00e9", "1"} {
+		for _, n := range []int{255, 256, 257, 511, 512, 513, 1023, 1024, 1025, 1026, 1100, 2047, 2048, 2049, 4096, 4097} {
+			x := Rep(unit, n)
+			lens = append(lens, x, x+".com", x+".in-addr.arpa", x+".ip6.arpa.", "a."+x, "4.3.2.1."+x+".in-addr.arpa", "a"+x)
+		}
+	}
 	fams = append(fams, List("lengths", lens))
 	fams = append(fams, List("bytesweep", ByteSweep([]string{
 		"ab.example.com", "a-b.c1", "_sip._tcp.example.com", "xn--e1afmkfd.com", "a.b",
